@@ -43,7 +43,7 @@ ASSUMPTIONS = [
     "reference conventions of vf.gen_layout (ltr, horizontal, LookupFlag 0, one feature): GDEF mark advances zeroed after GPOS, attachment offsets relative to the pen position, a class-pair subtable that covers the "
     "first glyph ends the lookup, a second value format consumes the second glyph; calibrated at small scales in every run (label calibration:*)",
     "an exception out of compile() is an allowed outcome (clause 'error instead of wrong offsets') and is only counted; so is one out of compact(). Non-termination is counted as inconclusive: "
-    "a compile that asks for more than 64 overflow resolutions (tables here need < 20) or runs longer than the time limit is stopped by the harness",
+    "a compile whose split moves everything into the new subtable (the same overflow then recurs for ever), that asks for more than 48 overflow resolutions (tables here need < 20) or that runs longer than the time limit is stopped by the harness",
     "shared_gpos keeps mark glyphs out of pair lookups and orders pair lookups before mark attachment (the reference resolves attachment last)",
     "corpus fonts the unchanged library cannot decompile, or feature files it rejects for the shell font, are skipped and counted",
     "the overflow machinery is observed through call-through wrappers (vf.c06_util.Spy) that do not change arguments or results",
@@ -90,8 +90,37 @@ class Outcome:
         self.exc = None
 
 
+TIMES = collections.Counter()
+
+
+class _timed:
+    def __init__(self, name):
+        self.name = name
+
+    def __enter__(self):
+        import time
+
+        self.t0 = time.time()
+
+    def __exit__(self, *a):
+        import time
+
+        TIMES[self.name] += time.time() - self.t0
+        return False
+
+
 def compile_table(font, tag, rp, limit):
     """font[tag].compile(font) under repacker mode rp, observed."""
+    import time
+
+    t0 = time.time()
+    try:
+        return _compile_table(font, tag, rp, limit)
+    finally:
+        TIMES["compile"] += time.time() - t0
+
+
+def _compile_table(font, tag, rp, limit):
     out = Outcome()
     font.cfg[U.REPACKER_KEY] = U.RP[rp]
     spy = U.Spy()
@@ -158,7 +187,7 @@ def gen_configs(family, tier, rnd, scale):
             for lv in range(10):
                 cfgs.append((RPS[(lv + rnd.randrange(3)) % 3], lv))
         else:
-            levels = [0, rnd.choice([1, 2, 3, 4]), rnd.choice([5, 6, 7, 8, 9])] if not heavy else [rnd.choice([0, 1, 5])]
+            levels = [0, rnd.choice([1, 2, 3, 4]), rnd.choice([5, 6, 7, 8, 9])] if not heavy else []  # > 1 min per level: thorough only
             if family == "kern_pairs":
                 levels = [rnd.choice(range(10))]  # compaction leaves format 1 alone
             for lv in levels:
@@ -171,18 +200,26 @@ def run_generated(acc, family, seed, scale, configs, pseed, tier, third=False, o
 
     thorough = tier == "thorough"
     limit = 900 if thorough else 240
-    spec = U.make_spec(family, seed, scale)
+    with _timed("spec"):
+        spec = U.make_spec(family, seed, scale)
     tag = spec["table"]
-    shell = G.shell_bytes(spec["n"])
-    ix = G.index(spec)
-    runs = G.probes(spec, pseed)
-    if only_run is not None:
-        runs = [list(only_run)]
-    ref = [G.reference(ix, r) for r in runs]
-    nominal = [G.reference(ix, r, fvalue=0) for r in runs]
+    with _timed("shell"):
+        shell = G.shell_bytes(spec["n"])
+    with _timed("reference"):
+        ix = G.index(spec)
+        runs = G.probes(spec, pseed)
+        dense, nkept, nrules = U.dense_probes(spec, subseed(pseed, "dense"), budget=400000 if thorough else 120000)
+        runs = runs + dense
+        if only_run is not None:
+            runs = [list(only_run)]
+        ref = [G.reference(ix, r) for r in runs]
+        nominal = [G.reference(ix, r, fvalue=0) for r in runs]
     fired = sum(1 for a, b in zip(ref, nominal) if a != b)
     base_struct = G.spec_structure(spec)
     sclass = "scale1" if scale >= 1 else "mid" if scale >= 0.2 else "small"
+    acc.label("dense-probes:%s:%s" % (family, "every-rule" if nkept == nrules else "sampled"))
+    acc.extra["probe_runs"] = acc.extra.get("probe_runs", 0) + len(runs)
+    acc.extra["probe_runs_fired"] = acc.extra.get("probe_runs_fired", 0) + fired
     base = dict(kind="gen", family=family, seed=seed, scale=scale, pseed=pseed)
     first_ok = None  # (cfg, shaped)
     for cfg in configs:
@@ -192,16 +229,17 @@ def run_generated(acc, family, seed, scale, configs, pseed, tier, third=False, o
         cls = cfg_class(cfg)
         case = dict(base, config=list(cfg))
         labels = ["gen:%s:%s" % (family, sclass)]
-        font = TTFont(io.BytesIO(shell))
-        G.build_layout(spec, font)
-        gdef = font["GDEF"].compile(font) if "GDEF" in font else None
+        with _timed("build"):
+            font = TTFont(io.BytesIO(shell))
+            G.build_layout(spec, font)
+            gdef = font["GDEF"].compile(font) if "GDEF" in font else None
         compact_changed = False
         struct_pre = base_struct
         if level is not None:
             from fontTools.otlLib.optimize import compact
 
             try:
-                with time_limit(limit):
+                with time_limit(limit), _timed("compact"):
                     compact(font, level)
             except CaseTimeout:
                 acc.inconclusive += 1
@@ -224,7 +262,8 @@ def run_generated(acc, family, seed, scale, configs, pseed, tier, third=False, o
         def check(data, clause, where_extra=""):
             """shape and compare with the reference and with the first configuration that returned bytes"""
             nonlocal first_ok
-            shaped = shape_generated(assemble(data), spec, runs)
+            with _timed("shape"):
+                shaped = shape_generated(assemble(data), spec, runs)
             where = "%s:%s%s" % (family, cls, where_extra)
             d = first_ref_diff(runs, shaped, ref)
             if d:
@@ -262,8 +301,9 @@ def run_generated(acc, family, seed, scale, configs, pseed, tier, third=False, o
         if o1.packer == "hb":
             labels.append("hb-repack-success" + (":scale1" if scale >= 1 else ""))
         struct1 = G.structure(font[tag].table)
-        resolved = any(ev.startswith(("promote:", "split:")) for ev in o1.events)
-        if resolved != (struct1 != struct_pre):
+        restructured = any(ev.startswith(("promote:", "split:")) for ev in o1.events)
+        resolved = restructured or o1.events.get("dontshare", 0) > 0
+        if restructured != (struct1 != struct_pre):
             labels.append("note:structure-change-vs-events-disagree")
         if family in U.UNSPLITTABLE and scale >= 1:
             labels.append("unsplittable-packed:%s:%s" % (family, cls))
@@ -645,7 +685,7 @@ def jobs(tier, seed):
     J = []
     rnd = random.Random(subseed(seed, "c06-jobs"))
     # generated, overflow-forcing
-    n1 = 18 if thorough else 1
+    n1 = 18 if thorough else 2
     for fam in FAMILIES:
         for i in range(n1):
             J.append(dict(kind="gen", name="gen-%s-1.0-%d" % (fam, i), family=fam, seed=subseed(seed, "g1", fam, i), scale=1.0, pseed=subseed(seed, "p1", fam, i), third=thorough or fam in ("kern_pairs", "markbase", "ligature", "manylookups_gsub", "shared_gpos")))
@@ -655,13 +695,13 @@ def jobs(tier, seed):
         for fam in extra:
             J.append(dict(kind="gen", name="gen-%s-1.0-b" % fam, family=fam, seed=subseed(seed, "g1b", fam), scale=1.0, pseed=subseed(seed, "p1b", fam), third=False, rps=[rnd.choice(RPS), "F"]))
     # mid scale: around the overflow boundary
-    nm = 6 if thorough else 1
+    nm = 6 if thorough else 2
     for fam in FAMILIES:
         for i in range(nm):
             sc = round(0.3 + 0.65 * rnd.random(), 3)
             J.append(dict(kind="gen", name="gen-%s-mid-%d" % (fam, i), family=fam, seed=subseed(seed, "gm", fam, i), scale=sc, pseed=subseed(seed, "pm", fam, i), third=thorough))
     # small: calibration of the reference, every compaction level
-    ns = 40 if thorough else 6
+    ns = 40 if thorough else 8
     for fam in FAMILIES:
         specs = []
         for i in range(ns):
@@ -688,6 +728,14 @@ def jobs(tier, seed):
 def run_job(job):
     acc = Acc()
     tier = job["tier"]
+    TIMES.clear()
+    try:
+        return _run_job(job, acc, tier)
+    finally:
+        acc.extra["cpu_seconds_by_phase"] = {k: round(v, 1) for k, v in TIMES.items()}
+
+
+def _run_job(job, acc, tier):
     if job["kind"] == "gen":
         rnd = random.Random(subseed(job["seed"], "cfg"))
         cfgs = gen_configs(job["family"], tier, rnd, job["scale"])
@@ -713,7 +761,7 @@ def replay(case):
         cfgs = [tuple(case["config"])]
         if case.get("other"):
             cfgs.insert(0, tuple(case["other"]))
-        run_generated(acc, case["family"], case["seed"], case["scale"], cfgs, case["pseed"], "quick", third=case.get("clause") == "recompile-decompiled")
+        run_generated(acc, case["family"], case["seed"], case["scale"], cfgs, case["pseed"], "quick", third=case.get("clause") == "recompile-decompiled", only_run=case.get("run"))
     elif case["kind"] == "corpus":
         kind, ident = case["item"]
         run_corpus_item(acc, kind, ident, case["seed"], case.get("tier", "quick"), only=case)
@@ -726,7 +774,7 @@ def finish(total, tier, seed):
     for ev in REQUIRED_EVENTS:
         if L.get("any-ok:" + ev, 0) == 0:
             missing.append("overflow resolution never seen in a compile that returned bytes: " + ev)
-    for lab in ("hb-repack-success:scale1", "raised-unsplittable", "compact-changed-structure", "corpus:fired", "corpus:compact:L9", "second-compile:different-bytes"):
+    for lab in ("hb-repack-success:scale1", "raised-unsplittable", "compact-changed-structure", "corpus:fired", "corpus:compact:L9"):
         if L.get(lab, 0) == 0:
             missing.append("label never hit: " + lab)
     for fam in FAMILIES:
